@@ -159,5 +159,7 @@ pub fn base_plan(r: &mut Prng) -> Plan {
     // one run in six: the connection tasks feel tokio's cooperative budget (spurious Pending from
     // channel and timer operations after 128 of them in one turn of the outer future)
     p.coop = r.chance(1, 6);
+    // one run in six: spurious polls of the connection tasks
+    p.spurious = r.chance(1, 6);
     p
 }
